@@ -19,10 +19,16 @@ Full == IF "MC_FULL" \in DOMAIN IOEnv THEN IOEnv.MC_FULL = "1" ELSE FALSE
 Kts == IF Full THEN {"ecc256", "ecc384", "ecc521", "rsa2048", "rsa3072", "rsa4096"} ELSE {"ecc256", "rsa2048"}
 (* shape: cver, pre (an unsigned one-image container sits in slot 0 in front of the main container),  *)
 (*        srkSet / used / revoke / kt of the main container, nImg, enc (image 0 encrypted, blob),      *)
-(*        ext (image 0 size-extended: stored size > input length)                                      *)
+(*        ext (image 0 size-extended: stored size > input length),                                     *)
+(*        cert (optional certificate: none / plain = without the `container` permission, the SRK signs   *)
+(*        the container / container = its key signs the container), signer (the SRK that signed the      *)
+(*        certificate: the selected one, or another key of the set - which the ROM must refuse)           *)
 Shapes ==
   { sh \in [cver : {1, 2}, pre : BOOLEAN, srkSet : {0, 2}, used : 0..3, revoke : 0..15, kt : Kts \cup {"none"},
-            nImg : {1, 2}, enc : BOOLEAN, ext : BOOLEAN] :
+            nImg : {1, 2}, enc : BOOLEAN, ext : BOOLEAN, cert : {"none", "plain", "container"}, signer : 0..3] :
+      /\ (sh.cert = "none" => sh.signer = sh.used)
+      /\ (sh.cert # "none" => sh.cver = 2 /\ sh.srkSet # 0 /\ sh.revoke = 0 /\ ~sh.pre /\ ~sh.ext)   \* the version-2 certificate format
+      /\ (sh.signer # sh.used => sh.nImg = 1 /\ ~sh.enc)                          \* the wrong signers on the plainest shape
       /\ (sh.srkSet = 0 <=> sh.kt = "none")
       /\ (sh.srkSet = 0 => sh.used = 0 /\ sh.revoke = 0)
       /\ (sh.enc => ~sh.ext)
@@ -44,9 +50,18 @@ TabLen(sh) == TabHdrLen + 4 * RecLen(sh.cver, sh.kt)
 SrkLen(sh) == IF sh.cver = 2 THEN ArrHdrLen + TabLen(sh) + DataHdrLen + ParLen(sh.kt) ELSE TabLen(sh)
 SigOff(sh) == IF Signed(sh) THEN Al(sh.cver, SbHdrLen + SrkLen(sh)) ELSE 0
 SigTot(sh) == IF Signed(sh) THEN SigHdrLen + SigLen(sh.kt) ELSE 0
-BlobOff(sh) == IF ~sh.enc THEN 0 ELSE IF Signed(sh) THEN Al(sh.cver, SigOff(sh) + SigTot(sh)) ELSE SbHdrLen
+Cert(sh) == sh.cert # "none"
+CertOff(sh) == IF Cert(sh) THEN SigOff(sh) + SigTot(sh) ELSE 0                   \* the certificate follows the signature
+CertSigOff(sh) == IF Cert(sh) THEN CertFixed + RecLen(2, sh.kt) + DataHdrLen + ParLen(sh.kt) ELSE 0
+CertLen(sh) == IF Cert(sh) THEN CertSigOff(sh) + SigHdrLen + SigLen(sh.kt) ELSE 0
+CertPerm(sh) == IF sh.cert = "container" THEN 1 ELSE 2                           \* `container` resp. `debug`
+Zeros(n) == [i \in 1..n |-> 0]
+CertExp(sh) == [present |-> Cert(sh), perm |-> (IF Cert(sh) THEN CertPerm(sh) ELSE 0), permData |-> Zeros(12), fuse |-> (IF Cert(sh) THEN 3 ELSE 0),
+                uuid |-> Zeros(16), signer |-> (IF Cert(sh) THEN sh.signer ELSE 0)]
+NoCert == [present |-> FALSE, perm |-> 0, permData |-> Zeros(12), fuse |-> 0, uuid |-> Zeros(16), signer |-> 0]
+BlobOff(sh) == IF ~sh.enc THEN 0 ELSE IF Signed(sh) THEN Al(sh.cver, SigOff(sh) + SigTot(sh) + CertLen(sh)) ELSE SbHdrLen
 BlobLen(sh) == IF sh.enc THEN BlobFixed + KeyBitsOf(sh) \div 8 ELSE 0
-SbLen(sh) == IF sh.enc THEN BlobOff(sh) + BlobLen(sh) ELSE IF Signed(sh) THEN SigOff(sh) + SigTot(sh) ELSE SbHdrLen
+SbLen(sh) == IF sh.enc THEN BlobOff(sh) + BlobLen(sh) ELSE IF Signed(sh) THEN SigOff(sh) + SigTot(sh) + CertLen(sh) ELSE SbHdrLen
 CLen(sh) == HdrLen + IaeLen * sh.nImg + SbLen(sh)
 PreLen == HdrLen + IaeLen + SbHdrLen
 ImgAt(sh, j) == ImgBase(sh) + 2048 * (j + 1)          \* image j of the main container; the pre container's image sits at ImgBase
@@ -59,9 +74,10 @@ Exp(sh) ==
                  meta |-> <<0, 0>>, load |-> <<0, 0, 0, 4096>>, entry |-> <<0, 0, 0, 4096>>]
       main == [srkSet |-> sh.srkSet, used |-> sh.used, revoke |-> sh.revoke, gdet |-> 0, sw |-> 1, fuse |-> 2, kt |-> sh.kt,
                blob |-> sh.enc, keyBits |-> (IF sh.enc THEN KeyBitsOf(sh) ELSE 0), keyId |-> (IF sh.enc THEN <<0, 5>> ELSE <<0, 0>>),
+               cert |-> CertExp(sh),
                img |-> [j \in 1..sh.nImg |-> img(j - 1)]]
       pre == [srkSet |-> 0, used |-> 0, revoke |-> 0, gdet |-> 0, sw |-> 0, fuse |-> 0, kt |-> "none", blob |-> FALSE, keyBits |-> 0,
-              keyId |-> <<0, 0>>, img |-> << [img(1) EXCEPT !.ht = 1] >>]
+              keyId |-> <<0, 0>>, cert |-> NoCert, img |-> << [img(1) EXCEPT !.ht = 1] >>]
   IN [cver |-> sh.cver, maxImg |-> 8, refuse |-> FALSE, cont |-> IF sh.pre THEN <<pre, main>> ELSE <<main>>]
 
 R(n, a, b) == [n |-> n, a |-> a, b |-> b]
@@ -89,13 +105,16 @@ Regions(sh) ==
           R("srk.pad", s + SbHdrLen + SrkLen(sh), s + SigOff(sh)),
           R("sig.hdr", s + SigOff(sh), s + SigOff(sh) + (IF Signed(sh) THEN SigHdrLen ELSE 0)),
           R("sig.data", s + SigOff(sh) + SigHdrLen, s + SigOff(sh) + SigTot(sh)),
-          R("blob.pad", s + SigOff(sh) + SigTot(sh), s + (IF sh.enc /\ Signed(sh) THEN BlobOff(sh) ELSE 0)),
+          R("cert", s + CertOff(sh), s + CertOff(sh) + CertSigOff(sh)),
+          R("cert.sig.hdr", s + CertOff(sh) + CertSigOff(sh), s + CertOff(sh) + CertSigOff(sh) + (IF Cert(sh) THEN SigHdrLen ELSE 0)),
+          R("cert.sig.data", s + CertOff(sh) + CertSigOff(sh) + SigHdrLen, s + CertOff(sh) + CertLen(sh)),
+          R("blob.pad", s + SigOff(sh) + SigTot(sh) + CertLen(sh), s + (IF sh.enc /\ Signed(sh) THEN BlobOff(sh) ELSE 0)),
           R("blob", s + BlobOff(sh), s + BlobOff(sh) + BlobLen(sh)),
           R("gap", c + CLen(sh), ImgBase(sh)) >>)
 
 (* regions no check of the format authenticates: gaps, the wrapped DEK (device bound, opaque), the signature header's   *)
 (* reserved word, and - in a container that is not signed - everything but the image bytes and their digests             *)
-DontCare == {"gap", "blob", "blob.pad", "sig.hdr", "u.hdr", "u.iae", "u.iae.hash.pad", "u.iae.iv.plain", "u.sb"}
+DontCare == {"gap", "blob", "blob.pad", "sig.hdr", "cert.sig.hdr", "u.hdr", "u.iae", "u.iae.hash.pad", "u.iae.iv.plain", "u.sb"}
 
 VARIABLES shape, t, s, rom, reg          \* rom = Exp(shape) and reg = Regions(shape) are computed once per behaviour
 vars == <<shape, t, s, rom, reg>>
@@ -103,9 +122,10 @@ TReg == reg[t]
 Hit(a, b) == t # 0 /\ TReg.a < b /\ a < TReg.b           \* the tampered region meets [a, b)
 Aux(hit) == IF hit THEN BOOLEAN ELSE {TRUE}                \* an auxiliary check may or may not notice
 IsRevoked(sh) == Signed(sh) /\ Revoked(sh.used, sh.revoke)
+IsWrongSigner(sh) == Cert(sh) /\ sh.signer # sh.used
 
 Init == /\ shape \in Shapes
-        /\ t \in (IF shape.revoke = 0 THEN 0..Len(Regions(shape)) ELSE {0})     \* tamper runs on the valid, not revoking shapes
+        /\ t \in (IF shape.revoke = 0 /\ ~IsWrongSigner(shape) THEN 0..Len(Regions(shape)) ELSE {0})     \* tamper runs on the valid shapes
         /\ s = S0 /\ rom = Exp(shape) /\ reg = Regions(shape)
 Step(ok, nx) == s' = (IF ok THEN nx ELSE [s EXCEPT !.st = "Rejected"]) /\ UNCHANGED <<shape, t, rom, reg>>
 InPre == shape.pre /\ s.ci = 0
@@ -138,7 +158,7 @@ ImageEntry == s.st = "Img" /\
 SignatureBlock == s.st = "SigBlk" /\
   LET e == IF InPre THEN [ci |-> 0, at |-> HdrLen + IaeLen, tagOk |-> TRUE, version |-> SbVersion(shape.cver), length |-> SbHdrLen,
                           certOff |-> 0, srkOff |-> 0, sigOff |-> 0, blobOff |-> 0, keyId |-> <<0, 0>>]
-           ELSE [ci |-> s.ci, at |-> SbAt(shape), tagOk |-> TRUE, version |-> SbVersion(shape.cver), length |-> SbLen(shape), certOff |-> 0,
+           ELSE [ci |-> s.ci, at |-> SbAt(shape), tagOk |-> TRUE, version |-> SbVersion(shape.cver), length |-> SbLen(shape), certOff |-> CertOff(shape),
                  srkOff |-> (IF Signed(shape) THEN SbHdrLen ELSE 0), sigOff |-> SigOff(shape), blobOff |-> BlobOff(shape),
                  keyId |-> (IF shape.enc THEN <<0, 5>> ELSE <<0, 0>>)]
   IN Step(SigBlkOK(rom, s, e), SigBlkNx(rom, s, e))
@@ -156,9 +176,26 @@ SrkTable == s.st = "Srk" /\
               srkDataLen |-> (IF shape.cver = 2 THEN DataHdrLen + ParLen(shape.kt) ELSE 0), srkDataId |-> shape.used,
               srkDataTagOk |-> TRUE, dataHashOk |-> ~hit, end |-> at + SrkLen(shape)]
     IN Step(SrkOK(rom, s, e), SrkNx(rom, s, e))
+Certificate == s.st = "Cert" /\
+  LET at == SbAt(shape) + CertOff(shape)
+      g == at + CertSigOff(shape)
+      kt == shape.kt
+      hitKey == Hit(at + CertFixed, g)                                                   \* record and key material of the certificate key
+      hitSigned == Hit(at, g) \/ Hit(g + SigHdrLen, g + SigHdrLen + SigLen(kt)) IN        \* what the certificate signature authenticates
+  \E kok \in Aux(hitKey) :
+    LET e == [ci |-> s.ci, at |-> at, tagOk |-> TRUE, version |-> CertVersion, length |-> CertLen(shape), sigOff |-> CertSigOff(shape),
+              permInvOk |-> TRUE, perm |-> CertPerm(shape), permData |-> Zeros(12), fuse |-> 3, rsvZero |-> TRUE, uuid |-> Zeros(16),
+              recAt |-> at + CertFixed, recTagOk |-> TRUE, recLen |-> RecLen(2, kt), recRsvZero |-> TRUE, recFlags |-> 0, sizesOk |-> TRUE,
+              alg |-> KeyAlg(kt), keySize |-> KeySize(kt), signHash |-> SignHash(kt),
+              dataAt |-> at + CertFixed + RecLen(2, kt), dataTagOk |-> TRUE, dataLen |-> DataHdrLen + ParLen(kt), dataHashOk |-> ~hitKey,
+              keyOk |-> kok, sigAt |-> g, sigTagOk |-> TRUE, sigVersion |-> 0, sigLen |-> SigLen(kt), sigTotal |-> SigHdrLen + SigLen(kt),
+              signedFrom |-> at, signedTo |-> g, key |-> shape.used,
+              sigOk |-> ~hitSigned /\ shape.signer = shape.used]            \* made by the selected SRK, nothing it covers touched
+    IN Step(CertOK(rom, s, e), CertNx(rom, s, e))
 VerifySignature == s.st = "Sig" /\
   LET g == SbAt(shape) + SigOff(shape)
       e == [ci |-> s.ci, tagOk |-> TRUE, version |-> 0, sigAt |-> g, signedFrom |-> CAt(shape), signedTo |-> g, key |-> shape.used,
+            byCert |-> shape.cert = "container",
             ok |-> ~(Hit(CAt(shape), g) \/ Hit(g + SigHdrLen, g + SigTot(shape))), sigLen |-> SigLen(shape.kt), length |-> SigTot(shape)]
   IN Step(SigOK(rom, s, e), SigNx(rom, s, e))
 Blob == s.st = "Blob" /\
@@ -171,17 +208,18 @@ Accept == s.st = "Hdr" /\ s.ci = Len(rom.cont) /\
   LET e == [nContainers |-> Len(rom.cont), fileLen |-> FileLen(shape)] IN Step(AcceptOK(rom, s, e), AcceptNx(rom, s, e))
 Emit == /\ s.st \in {"Accepted", "Rejected"}
         /\ PrintT(ToJson([cver |-> shape.cver, pre |-> shape.pre, srkSet |-> shape.srkSet, used |-> shape.used, revoke |-> shape.revoke,
-                          kt |-> shape.kt, nImg |-> shape.nImg, enc |-> shape.enc, ext |-> shape.ext,
+                          kt |-> shape.kt, nImg |-> shape.nImg, enc |-> shape.enc, ext |-> shape.ext, cert |-> shape.cert, signer |-> shape.signer,
                           cls |-> (IF t = 0 THEN "none" ELSE TReg.n), verdict |-> s.st]))
         /\ s' = [s EXCEPT !.st = "Emitted"] /\ UNCHANGED <<shape, t, rom, reg>>
 Stutter == s.st = "Emitted" /\ UNCHANGED vars
-Next == ContainerHeader \/ ImageEntry \/ SignatureBlock \/ SrkTable \/ VerifySignature \/ Blob \/ ContainerEnd \/ Accept \/ Emit \/ Stutter
+Next == ContainerHeader \/ ImageEntry \/ SignatureBlock \/ SrkTable \/ Certificate \/ VerifySignature \/ Blob \/ ContainerEnd \/ Accept \/ Emit \/ Stutter
 Spec == Init /\ [][Next]_vars
 
 (* ---- lemmas *)
 Done == s.st \in {"Accepted", "Rejected", "Emitted"}
-UntamperedAccepted == (t = 0 /\ ~IsRevoked(shape)) => s.st # "Rejected"       \* a valid image is accepted for every non-revoking pair
+UntamperedAccepted == (t = 0 /\ ~IsRevoked(shape) /\ ~IsWrongSigner(shape)) => s.st # "Rejected"       \* a valid image is accepted for every non-revoking pair
 RevokedRejected    == IsRevoked(shape) => s.st # "Accepted"
+WrongSignerRejected == IsWrongSigner(shape) => s.st # "Accepted"                  \* a certificate signed by a non-selected SRK is never accepted
 TamperRejected     == (s.st = "Accepted" /\ t # 0) => TReg.n \in DontCare
 DontCareAccepted   == (s.st = "Rejected" /\ t # 0) => TReg.n \notin DontCare
 RegionsCovered == s.st = "Accepted" =>
